@@ -33,7 +33,7 @@ type c17Case struct {
 
 func (c *c17Case) Key() string { return core.KeyOf(c) }
 
-var c17Ops = []string{"pushnil", "pushA", "pushB", "pop", "setA", "setB", "setF", "setg", "copy", "swap", "setAnil", "pushgnil"}
+var c17Ops = []string{"pushnil", "pushA", "pushB", "pop", "setA", "setB", "setF", "setg", "copy", "swap", "setAnil", "pushgnil", "pushShared"}
 
 // c17Nil models a binding whose value is nil: the name is bound (it shadows outer bindings
 // and struct fields), its value is nothing.
@@ -163,6 +163,10 @@ func (c *c17Case) runHistory(ctx *core.Ctx) {
 		st, model := c17New(c.Root)
 		var other *vuego.Stack
 		var otherModel *c17Model
+		// a map owned by the caller, pushed as a scope (possibly several times); its model twin
+		shared := map[string]any{"b": "sharedB"}
+		sharedModel := map[string]string{"b": "sharedB"}
+		var sharedOwner *vuego.Stack // the caller uses its map with one stack only (aliasing it between two stacks is the caller's doing)
 		otherObs := ""
 		defined := true
 		for i, op := range ops {
@@ -198,6 +202,14 @@ func (c *c17Case) runHistory(ctx *core.Ctx) {
 			case "setg":
 				st.Set("g", val)
 				model.scopes[len(model.scopes)-1]["g"] = val
+			case "pushShared":
+				// the caller's map becomes the top scope: Set writes into it, Pop must leave it alone
+				if sharedOwner != nil && sharedOwner != st {
+					return
+				}
+				sharedOwner = st
+				st.Push(shared)
+				model.scopes = append(model.scopes, sharedModel)
 			case "setAnil":
 				st.Set("a", nil)
 				model.scopes[len(model.scopes)-1]["a"] = c17Nil
@@ -225,6 +237,10 @@ func (c *c17Case) runHistory(ctx *core.Ctx) {
 			ctx.Transition(1)
 			if !defined {
 				ctx.Zone("pop-without-matching-push")
+				return
+			}
+			if len(shared) != len(sharedModel) {
+				ctx.Violation("caller-map-modified", "root-"+c.Root, opsClass(ops[:i+1]), fmt.Sprintf("history %v: the map the caller pushed now holds %v, expected %v", ops[:i+1], shared, sharedModel))
 				return
 			}
 			got, want := c17Observe(st), c17Expect(model)
@@ -491,7 +507,7 @@ func init() {
 	core.Register(&core.Check{
 		ID:    "C17",
 		Level: "model_checking",
-		Rule: "history part: explicit-state search over all sequences of {Push(nil), Push({a}), Push({b,g}), Pop, Set a/b/F/g, Set(a, nil), Push({g: nil, F: nil}), Copy, swap active stack} up to the bound, for root data nil / map / struct / *struct, replayed on a fresh Stack with a deterministic LIFO pool; after every operation Lookup, Resolve, GetString and EnvMap of 5 names (incl. a struct field name and a JSON tag) are compared with a list-of-maps reference model and the inactive copy must be unchanged. " +
+		Rule: "history part: explicit-state search over all sequences of {Push(nil), Push({a}), Push({b,g}), Pop, Set a/b/F/g, Set(a, nil), Push({g: nil, F: nil}), Push(a map the caller keeps and pushes again), Copy, swap active stack} up to the bound, for root data nil / map / struct / *struct, replayed on a fresh Stack with a deterministic LIFO pool; after every operation Lookup, Resolve, GetString and EnvMap of 5 names (incl. a struct field name and a JSON tag) are compared with a list-of-maps reference model and the inactive copy must be unchanged. " +
 			"path part: every path of <=3 steps over 9 step names in 3 syntaxes into every nested value of depth <=3 over 11 container/leaf kinds, against ordinary Go indexing by reflection. non-trivial = all",
 		Bounds:      map[string]string{"quick": "histories of <=5 operations; paths of <=3 steps into values nested <=3 deep", "thorough": "histories of <=7 operations; same paths"},
 		Assumptions: []string{"Pop without a matching Push is unconstrained", "a present key whose value is nil and maps with non-string keys are unconstrained", "the Go name of a JSON-tagged root field is not queried in the history part (recorded finding of C08)"},
